@@ -251,6 +251,21 @@ class Extractor:
                 return
         self.problems.append(Problem(kind, text, node, func))
 
+    def _class_string(self, attr):
+        """the text of a class-level string constant of the emitter that no method ever assigns (``self._STMT_X``)"""
+        for c in self.repo.mro(self.cls):
+            v = c.class_attrs.get(attr)
+            if v is not None:
+                if not (isinstance(v, ast.Constant) and isinstance(v.value, str)):
+                    return None
+                for k in self.repo.mro(self.cls):
+                    for mth in k.methods.values():
+                        for n in own_nodes(mth.node):
+                            if isinstance(n, ast.Attribute) and n.attr == attr and isinstance(n.ctx, (ast.Store, ast.Del)):
+                                return None
+                return v.value
+        return None
+
     def _dissolved(self, m):
         """the method with the small helper objects it creates and drops again (a line buffer, ...) dissolved into locals -
         nothing else is pasted in: calls of the emitter's own methods and of module functions stay calls"""
@@ -525,6 +540,8 @@ class Extractor:
                         out.append((s2, s2.fields[e.attr]))
                     elif e.attr in self.consts:
                         out.append((s2, SInt(None, self.consts[e.attr])))
+                    elif self._class_string(e.attr) is not None:
+                        out.append((s2, Lit(self._class_string(e.attr))))
                     else:
                         out.append((s2, SObj(e)))
                 elif isinstance(b, SObj):
